@@ -86,17 +86,19 @@ Lemma write_chunks_beyond c t dv abs dv' abs' :
   c <> [] -> blen (d_file dv) <= abs ->
   write_chunks dv abs (c :: t) = (dv', abs', true) ->
   d_file dv' = d_file dv ++ zerosN (abs - blen (d_file dv)) ++ concat (c :: t) /\
+  abs' = abs + blen (concat (c :: t)) /\
   nfaults (d_faults dv') = nfaults (d_faults dv).
 Proof.
   intros Hc Habs H. cbn [write_chunks] in H.
   destruct (dev_write dv abs c) as [[dv1 n] [|]] eqn:E; [|inversion H].
   apply dev_write_ok in E. destruct E as (Hf & Hn & Hnf). subst n.
   rewrite write_at_beyond in Hf by assumption.
-  destruct (write_chunks_end t dv1 (abs + blen c) dv' abs' true) as (w & Hw & _ & Hok & _).
+  destruct (write_chunks_end t dv1 (abs + blen c) dv' abs' true) as (w & Hw & Ha & Hok & _).
   - rewrite Hf, !blen_app, blen_zerosN. lia.
   - exact H.
-  - destruct (Hok eq_refl) as [-> Hn2]. split; [|rewrite Hn2; exact Hnf].
-    rewrite Hw, Hf. cbn [concat]. rewrite <- !app_assoc. reflexivity.
+  - destruct (Hok eq_refl) as [-> Hn2]. split; [|split; [|rewrite Hn2; exact Hnf]].
+    + rewrite Hw, Hf. cbn [concat]. rewrite <- !app_assoc. reflexivity.
+    + cbn [concat]. rewrite blen_app. lia.
 Qed.
 
 (* two successful calls overwriting a middle part *)
